@@ -314,6 +314,7 @@ def p_c15(facts, rep, tier):
         "the snapshot; L8 - Nomt::read looks the value up under an access guard taken blockingly (or by a try whose refusal leaves before the lookup). Observed values, channel/condvar liveness and fairness are not decided."
     )
     st = strands.Strands(facts)
+    lockgraph.resolve_shared_class(facts)
     M, n1, npairs = lockgraph.run(facts, rep, st)
     n2 = lockgraph.l2(facts, rep, M)
     n3 = lockgraph.l3(facts, rep, M)
